@@ -282,13 +282,7 @@ def step (elem : Bool) (st : St) (w : List String) : St × String :=
       | "insert", [pos, dat] =>
         match opnd m h pos, dataArg m h dat with
         | some pos, some (bytes, _) =>
-          let r : Out Nat := match arrayInsert m h pos bytes.length with
-            | .ok s1 p => match poke s1 h p bytes with
-              | .ok s2 _ => .ok s2 p
-              | .fail s2 e => .fail s2 e
-              | .fault w => .fault w
-            | x => x
-          finish elem st r noDetail offRet [okAlt st h (Vec.insert v pos bytes), refAlt st]
+          finish elem st (insertOp m h pos bytes) noDetail offRet [okAlt st h (Vec.insert v pos bytes), refAlt st]
         | _, _ => bad
       | "set", [tr, off, dat] =>
         let offv : Option Int :=
